@@ -18,7 +18,8 @@ NAMES = ["R04.2", "R04.3", "R04.4", "R04.5"]
 IMPORTS = {
     "C01": [("c14", None, "evaluation reduces the operands through the number tracker"),
             ("c15", None, "eval_vec / eval_iter are evaluation entry points"),
-            ("c02", None, "parsing folds constant sub-expressions before anything is evaluated")],
+            ("c02", None, "parsing folds constant sub-expressions before anything is evaluated"),
+            ("c08", None, "binary operators in function-call notation are rewritten to the infix form that is evaluated")],
     "C02": [("c01", ORDER + UNARY, "folding visits the operators in the application order and applies the literals' unary compositions"),
             ("c14", None, "the flat pre-pass and the flat -> deep converter reduce through the number tracker"),
             ("c03", ["R03.4", "R03.5", "R03.6"], "a flat expression reaches the (always folding) deep form through the per-node converter")],
